@@ -306,6 +306,153 @@ def resolve_variants(j):
     return done
 
 
+FLAG_ROLES = [
+    # (struct, role of the bool flag, value the constructor gives it)
+    ('internal::ChannelInternal', 'recv_blocking', False),
+    ('future::ReceiveStream', 'terminated', False),
+]
+
+
+def resolve_flag_enums(j):
+    """a `bool` flag of the state replaced by a private two-variant, field-less enum (`recv_blocking: bool` ->
+    `wait_side: WaitSide { Senders, Receivers }`): the variant the constructor stores stands for the constructor's
+    `false`, the other one for `true`; enum values, discriminant switches and derived `==`/`!=` on that enum are
+    rewritten into their bool form, so that everything downstream sees the flag it knows.  Only when the struct has no
+    bool field left for the role and exactly one such enum field."""
+    byname = {canon(a['name']): a for a in j['adts']}
+    done = {}
+    for sname, role, init in FLAG_ROLES:
+        s = byname.get(sname)
+        if s is None or not s.get('variants'):
+            continue
+        fields = s['variants'][0]['fields']
+        if any(f['name'] == role or nolt(f['ty']) == 'bool' for f in fields) and (sname != 'future::ReceiveStream' or any(nolt(f['ty']) == 'bool' for f in fields)):
+            continue
+        cands = []
+        for f in fields:
+            e = byname.get(nolt(f['ty']).split('<')[0])
+            if e is not None and e.get('kind') == 'Enum' and len(e.get('variants', [])) == 2 and not any(v['fields'] for v in e['variants']):
+                cands.append((f, e))
+        if len(cands) != 1:
+            continue
+        f, e = cands[0]
+        ename = canon(e['name'])
+        # which variant does a constructor store?
+        inits = set()
+        for b in j['bodies']:
+            for blk in b['blocks']:
+                for st in blk['stmts']:
+                    if st['k'] == 'assign' and st['rv']['k'] == 'agg' and st['rv'].get('ak') == 'adt' and canon(st['rv'].get('name', '')) == sname and f['name'] in (st['rv'].get('fnames') or []):
+                        op = st['rv']['fields'][st['rv']['fnames'].index(f['name'])]
+                        if op.get('k') in ('copy', 'move') and not op['p']['p']:
+                            for blk2 in b['blocks']:
+                                for s2 in blk2['stmts']:
+                                    if s2['k'] == 'assign' and not s2['lhs']['p'] and s2['lhs']['l'] == op['p']['l'] and s2['rv']['k'] == 'agg' and canon(s2['rv'].get('name', '')) == ename:
+                                        inits.add(s2['rv']['variant'])
+        if len(inits) != 1:
+            continue
+        vinit = inits.pop()
+        truth = {v['name']: ((v['name'] != vinit) != init) if False else ((v['name'] == vinit) == init) for v in e['variants']}
+        # truth[variant] is the bool it stands for: the constructor's variant stands for `init`
+        truth = {v['name']: (init if v['name'] == vinit else (not init)) for v in e['variants']}
+        done[ename] = (truth, sname, f['name'], role, e['name'])
+    if not done:
+        return {}
+
+    def cbool(b):
+        return {'k': 'const', 'ty': 'bool', 'dbg': 'flag-enum', 'val': '1' if b else '0'}
+
+    def is_e(ty):
+        return canon(nolt(ty or '')) in done
+
+    def fix_body(b):
+        discr_locals = {}
+        for blk in b['blocks']:
+            for st in blk['stmts']:
+                if st['k'] != 'assign':
+                    continue
+                rv = st['rv']
+                if rv['k'] == 'agg' and rv.get('ak') == 'adt' and canon(rv.get('name', '')) in done:
+                    truth = done[canon(rv['name'])][0]
+                    st['rv'] = {'k': 'use', 'o': cbool(truth[rv['variant']])}
+                elif rv['k'] == 'discr' and is_e(rv['p'].get('ty')):
+                    truth = done[canon(nolt(rv['p']['ty']))][0]
+                    if not st['lhs']['p']:
+                        discr_locals[st['lhs']['l']] = {str(v[1]): truth.get(v[0]) for v in rv.get('variants', [])}
+                    st['rv'] = {'k': 'use', 'o': {'k': 'copy', 'p': rv['p']}}
+        for blk in b['blocks']:
+            t_ = blk['term']
+            if t_['k'] == 'switch' and t_['o'].get('k') in ('copy', 'move') and not t_['o']['p']['p'] and t_['o']['p']['l'] in discr_locals:
+                m = discr_locals[t_['o']['p']['l']]
+                t_['targets'] = [['1' if m.get(str(v)) else '0', bb] for v, bb in t_['targets']]
+            if t_['k'] == 'call' and t_.get('fn') and t_['fn'].get('path') in ('std::cmp::PartialEq::eq', 'std::cmp::PartialEq::ne') \
+                    and t_['fn'].get('args') and canon(nolt(t_['fn']['args'][0])) in done and len(t_['args']) == 2 and t_.get('target') is not None \
+                    and all(a.get('k') in ('copy', 'move') and not a['p']['p'] for a in t_['args']):
+                op = 'Eq' if t_['fn']['path'].endswith('eq') else 'Ne'
+
+                def behind(a, depth=0):
+                    """the flag value behind the reference held in local a: a place to copy, or a constant"""
+                    l = a['p']['l']
+                    defs = [s_ for bl in b['blocks'] for s_ in bl['stmts'] if s_['k'] == 'assign' and not s_['lhs']['p'] and s_['lhs']['l'] == l]
+                    if len(defs) == 1 and depth < 5:
+                        rv_ = defs[0]['rv']
+                        if rv_['k'] in ('ref', 'rawptr'):
+                            pl_ = rv_['p']
+                            if pl_['p'] == ['*']:
+                                inner = behind({'p': {'l': pl_['l'], 'p': []}}, depth + 1)
+                                if inner.get('k') == 'const' or inner['p']['p'] != ['*'] or True:
+                                    return inner
+                            return {'k': 'copy', 'p': dict(pl_, ty='bool')}
+                        if rv_['k'] == 'use' and rv_['o'].get('k') in ('copy', 'move') and not rv_['o']['p']['p']:
+                            return behind(rv_['o'], depth + 1)
+                        if rv_['k'] == 'use' and rv_['o'].get('k') == 'const':
+                            m_ = re.search(r'promoted\[(\d+)\]', rv_['o'].get('dbg', ''))
+                            proms = b.get('promoted') or []
+                            if m_ and int(m_.group(1)) < len(proms):
+                                for bl in proms[int(m_.group(1))]['blocks']:
+                                    for s_ in bl['stmts']:
+                                        if s_['k'] == 'assign' and s_['rv']['k'] == 'use' and s_['rv']['o'].get('dbg') == 'flag-enum':
+                                            return dict(s_['rv']['o'])
+                    return {'k': 'copy', 'p': {'l': l, 'p': ['*'], 'ty': 'bool'}}
+
+                ab = [behind(a) for a in t_['args']]
+                blk['stmts'].append({'k': 'assign', 'lhs': t_['dest'], 'rv': {'k': 'bin', 'op': op, 'a': ab[0], 'b': ab[1]}, 'at': t_.get('at'), 'exp': False})
+                blk['term'] = {'k': 'goto', 'target': t_['target'], 'at': t_.get('at')}
+
+    for b in j['bodies']:
+        for pb in b.get('promoted') or []:
+            fix_body(pb)
+        fix_body(b)
+    # types and the struct's field
+    enames = set()
+    for ename, (truth, sname, fname, role, rawname) in done.items():
+        enames.add(rawname)
+
+    def walk(x):
+        if isinstance(x, dict):
+            for k in list(x.keys()):
+                v = x[k]
+                if k == 'ty' and isinstance(v, str):
+                    for en in enames:
+                        if v == en:
+                            x[k] = 'bool'
+                        elif v in ('&' + en, '&mut ' + en) or re.fullmatch(r"&('[a-z_0-9]+ )?(mut )?" + re.escape(en), v):
+                            x[k] = v.replace(en, 'bool')
+                else:
+                    walk(v)
+        elif isinstance(x, list):
+            for v in x:
+                walk(v)
+
+    walk(j['bodies'])
+    for ename, (truth, sname, fname, role, rawname) in done.items():
+        s = byname[sname]
+        for f in s['variants'][0]['fields']:
+            if f['name'] == fname:
+                f['ty'] = 'bool'
+    return {k: v[3] for k, v in done.items()}
+
+
 def resolve_fields(j):
     """private fields the rules name (`queue`, `wait_list`, `sig`, `state`, `terminated` ...) are looked up by their TYPE inside
     their struct when the name is gone (a rename); exactly one candidate -> every projection / aggregate is renamed back.
@@ -656,6 +803,10 @@ def resolve(j):
         pass
     try:
         normalise_generics(j)
+    except Exception:
+        pass
+    try:
+        resolve_flag_enums(j)
     except Exception:
         pass
     try:
